@@ -21,7 +21,7 @@ def parseAct (tok : String) : Option Act :=
     else none
 
 def parseActs (s : String) : Option (List Act) :=
-  (s.splitOn " ").filter (fun t => t ≠ "" && t ≠ "IA" && t ≠ "HP" && t ≠ "IP") |>.mapM parseAct      -- IA: the test leaves SIGALRM ignored; HP: it starts a helper process of its own (no effect on results)
+  (s.splitOn " ").filter (fun t => t ≠ "" && t ≠ "IA" && t ≠ "HP" && t ≠ "IP" && t ≠ "MG" && t ≠ "ML" && t ≠ "MS") |>.mapM parseAct      -- IA: the test leaves SIGALRM ignored; HP: it starts a helper process of its own; MG/ML/MS: it switches the mock mode (no effect on what MP/MF report)
 
 structure Frame where
   name : String
